@@ -8,6 +8,7 @@ class that reaches `World.run`), provided `stop()` of every simulator returns (r
 * `second_shutdown`  a second `shutdown()` does nothing
 * `outcome`          KeyboardInterrupt and RemoteException are swallowed (logged), everything else
                      is re-raised after the shutdown
+* `main_task_wound_down`, `shutdown_with_pending_main`  the scheduler task is never left pending (fix D22), and why that matters
 The hypothesis about `stop()` is the visible gap (`stop_failure_skips_rest` shows it is needed).
 What no model exhibits — processes, sockets, the 0.1 s stop timeout, promptness, pending asyncio
 tasks — is decided by the fault enumeration on the real code (harness/fault_enum.py).
@@ -27,7 +28,7 @@ theorem stopFrom_all (k i : Nat) (log : List Nat) :
 theorem stop_once (w : WorldSt) (e : RunEnd) (hopen : w.loopClosed = false) (hfresh : w.stops = []) :
     let w' := (run (fun _ => none) w e).1
     w'.loopClosed = true ∧ w'.stops.reverse = List.range w.n ∧ ∀ i, i < w.n → w'.stops.count i = 1 := by
-  simp only [run, shutdown, hopen, Bool.false_eq_true, if_false, stopFrom_all, hfresh, List.append_nil]
+  simp only [run, shutdown, windDown, hopen, Bool.false_eq_true, if_false, stopFrom_all, hfresh, List.append_nil]
   refine ⟨trivial, ?_, ?_⟩
   · simp [List.range_eq_range']
   · intro i hi
@@ -49,9 +50,31 @@ theorem outcome (w : WorldSt) (e : RunEnd) (hopen : w.loopClosed = false) :
       | .ok => .returned
       | .keyboardInterrupt => .returned
       | .remoteException => .returned
-      | .other cls => .raised cls := by
-  simp only [run, shutdown, hopen, Bool.false_eq_true, if_false, stopFrom_all]
+      | .other cls => .raised cls
+      | .systemExit => .raised resurfaced := by
+  simp only [run, shutdown, windDown, hopen, Bool.false_eq_true, if_false, stopFrom_all]
   cases e <;> rfl
+
+/-- after `World.run` the scheduler task is never left pending, however the run ended — also when a `KeyboardInterrupt` or a
+`SystemExit` raised inside an in-process simulator left the event loop at once (fix D22) -/
+theorem main_task_wound_down (stopRaises : Nat → Option Nat) (w : WorldSt) (e : RunEnd) :
+    (run stopRaises w e).1.mainPending = false := by
+  by_cases hc : w.loopClosed = true
+  · simp [run, shutdown, windDown, hc]
+  · cases h : stopFrom stopRaises w.n 0 w.stops with
+    | mk log ex => cases ex <;> simp [run, shutdown, windDown, hc, h]
+
+/-- the wind-down is needed: a `shutdown()` that runs while the scheduler task is pending stops every simulator but never
+closes the loop and raises (what the tree before fix D22 did for `SystemExit` / `KeyboardInterrupt` out of an in-process
+simulator; the next `shutdown()` then finalized every simulator a second time) -/
+theorem shutdown_with_pending_main (w : WorldSt) (hopen : w.loopClosed = false) (hfresh : w.stops = []) (hp : w.mainPending = true) :
+    let r := shutdown (fun _ => none) w
+    r.1.loopClosed = false ∧ r.1.stops.reverse = List.range w.n ∧ r.2 = some resurfaced ∧
+      (shutdown (fun _ => none) r.1).1.stops.length = 2 * w.n := by
+  simp only [shutdown, hopen, Bool.false_eq_true, if_false, stopFrom_all, hfresh, List.append_nil, hp, if_true]
+  refine ⟨trivial, by simp [List.range_eq_range'], trivial, ?_⟩
+  simp
+  omega
 
 /-- the hypothesis is needed: if `stop()` of simulator `j` raises, the simulators after it are not
 stopped and the loop is not closed -/
@@ -60,10 +83,11 @@ theorem stop_failure_skips_rest (w : WorldSt) (e : RunEnd) (j cls : Nat)
     let w' := (run (fun i => if i = j then some cls else none) w e).1
     w'.loopClosed = false ∧ w'.stops = [0] := by
   subst hw hj
-  simp [run, shutdown, stopFrom]
+  simp [run, shutdown, windDown, stopFrom]
 
 /-! non-vacuity -/
 example : (run (fun _ => none) { n := 3 } (.other 7)) = ({ n := 3, loopClosed := true, stops := [2, 1, 0] }, .raised 7) := by decide
 example : (run (fun _ => none) { n := 2 } .remoteException).2 = .returned := by decide
+example : (run (fun _ => none) { n := 2 } .systemExit) = ({ n := 2, loopClosed := true, stops := [1, 0] }, .raised resurfaced) := by decide
 
 end Mosaik.C14
